@@ -638,7 +638,7 @@ def load(repo=REPO):
     global _DB
     if _DB is None or _DB.repo != repo:
         _DB = SrcDB(repo)
-        if os.environ.get('VP_NORMALIZE', '0') == '1':
+        if os.environ.get('VP_NORMALIZE', '1') == '1':
             # E0: bring the parsed program to normal form (helpers that are
             # not known units inlined, stable aliases propagated), then index
             # the normal form; every engine and rule sees only that.
